@@ -56,6 +56,13 @@ def jobs_for(tier, rng, nd):
         for kind in ("VI", "SAVI"):
             jobs.append({"mdp": m, "kind": kind, "gamma": [1, 2], "eps": [1, 3], "test": "span", "calls": [3],
                          "mbs": 1024, "shuffle": False, "seed": 1, "tag": f"{kind}-large@{nd}dev"})
+    # tens of thousands of states (more than 1024 per device); the trace is reduced exactly (solver_worker.quotient)
+    if nd in (2, 8) or (tier == "thorough" and nd > 1):
+        N = 20100 if nd != 8 else 8 * 2600          # with 8 devices: no padding at all at this size
+        for kind in (("VI",) if tier == "quick" else ("VI", "PI", "RVI")):
+            jobs.append({"mdp": gen.corridors(rng, N, [3, 2]), "kind": kind, "gamma": [1, 1] if kind == "RVI" else [1, 2],
+                         "eps": [1, 2], "test": "span", "calls": [5], "mbs": rng.choice([1024, 2600]), "max_eval_iter": 3,
+                         "reset": False, "quotient": True, "tag": f"{kind}-corridors{N}@{nd}dev"})
     # the corner the property text names: two or more devices and no padding at all
     for kind in ("VI", "SAVI"):
         m = gen.union(rng, 3, PD=2, plain=True, chain=False)
